@@ -397,3 +397,308 @@ func typeSwitchedHashable(v ssa.Value, b *ssa.BasicBlock) bool {
 	}
 	return back(b)
 }
+
+// ---------------------------------------------------------------- R-dict-value-agree
+
+const textDictValue = "R-dict-value-agree: a type assertion on a value taken out of a dictionary (an iterator's value, the result of a lookup) asserts a Go type that the code which fills dictionaries of that kind stores there — strings in a hash, struct{} in a set, key objects in the keyspace. `i.value.(string)` while iterating a set panics for every member (SORT on a set)"
+
+type dictKinds struct {
+	c     *Ctx
+	fFlag *types.Var
+	fPay  *types.Var
+	fData *types.Var
+	memo  map[ssa.Value]map[string]bool
+}
+
+// flagConstName: the FLAG_KEY_TYPE_* constant with this value.
+func (dk *dictKinds) flagConstName(v ssa.Value) string {
+	cst, ok := stripValue(v).(*ssa.Const)
+	if !ok || cst.Value == nil {
+		return ""
+	}
+	sc := dk.c.Pkg.Types.Scope()
+	for _, n := range sc.Names() {
+		if strings.HasPrefix(n, "FLAG_KEY_TYPE_") {
+			if k, ok := sc.Lookup(n).(*types.Const); ok && k.Val().ExactString() == cst.Value.ExactString() && types.Identical(k.Type(), cst.Type()) {
+				return n
+			}
+		}
+	}
+	return ""
+}
+
+// kinds: which kinds of dictionary v can be ("FLAG_KEY_TYPE_SET", "FLAG_KEY_TYPE_HASH_TABLE", "keyspace"); empty = unknown.
+func (dk *dictKinds) kinds(v ssa.Value, depth int) map[string]bool {
+	out := map[string]bool{}
+	if v == nil || depth > 6 {
+		return out
+	}
+	if r, ok := dk.memo[v]; ok {
+		return r
+	}
+	dk.memo[v] = out
+	add := func(m map[string]bool) {
+		for k := range m {
+			out[k] = true
+		}
+	}
+	switch x := v.(type) {
+	case *ssa.Phi:
+		for _, e := range x.Edges {
+			if !isNilConst(e) {
+				add(dk.kinds(e, depth+1))
+			}
+		}
+	case *ssa.Extract:
+		if call, ok := x.Tuple.(*ssa.Call); ok {
+			add(dk.resultKinds(call.Call.StaticCallee(), x.Index, depth+1))
+		}
+	case *ssa.Call:
+		add(dk.resultKinds(x.Call.StaticCallee(), 0, depth+1))
+		// a new dictionary: the key type it is installed under in this function
+		if len(out) == 0 {
+			add(dk.installedAs(x))
+		}
+	case *ssa.Alloc:
+		add(dk.installedAs(x))
+	case *ssa.TypeAssert:
+		// payload.(*redisDict): the flag test every way into the assertion passes
+		if _, f := loadedField(x.X); f == dk.fPay {
+			seen := map[*ssa.BasicBlock]bool{}
+			var back func(b *ssa.BasicBlock)
+			back = func(b *ssa.BasicBlock) {
+				if seen[b] {
+					return
+				}
+				seen[b] = true
+				for _, d := range b.Preds {
+					if ifi, ok := d.Instrs[len(d.Instrs)-1].(*ssa.If); ok {
+						if call, ok := ifi.Cond.(*ssa.Call); ok && len(call.Call.Args) == 2 {
+							if _, f := loadedField(call.Call.Args[0]); f == dk.fFlag && d.Succs[0] == b && d.Succs[1] != b {
+								if n := dk.flagConstName(call.Call.Args[1]); n != "" {
+									out[n] = true
+									continue
+								}
+							}
+						}
+					}
+					back(d)
+				}
+			}
+			back(x.Block())
+		}
+	case *ssa.UnOp:
+		if x.Op != token.MUL {
+			break
+		}
+		switch a := x.X.(type) {
+		case *ssa.FieldAddr:
+			if fieldOf(a) == dk.fData {
+				out["keyspace"] = true
+			}
+		case *ssa.Alloc:
+			for _, r := range referrers(a) {
+				if st, ok := r.(*ssa.Store); ok && st.Addr == ssa.Value(a) && !isNilConst(st.Val) {
+					add(dk.kinds(st.Val, depth+1))
+				}
+			}
+		case *ssa.FreeVar:
+			// captured variable: the cell in the enclosing function
+			fn := a.Parent()
+			for i, fv := range fn.FreeVars {
+				if fv != a || fn.Parent() == nil {
+					continue
+				}
+				for _, in := range instrsOf(fn.Parent()) {
+					if mc, ok := in.(*ssa.MakeClosure); ok && mc.Fn == ssa.Value(fn) && i < len(mc.Bindings) {
+						if al, ok := mc.Bindings[i].(*ssa.Alloc); ok {
+							for _, r := range referrers(al) {
+								if st, ok := r.(*ssa.Store); ok && st.Addr == ssa.Value(al) && !isNilConst(st.Val) {
+									add(dk.kinds(st.Val, depth+1))
+								}
+							}
+						}
+					}
+				}
+			}
+		}
+	case *ssa.Parameter:
+		fn := x.Parent()
+		idx := -1
+		for i, p := range fn.Params {
+			if p == x {
+				idx = i
+			}
+		}
+		if node := dk.c.CG.Nodes[fn]; node != nil && idx >= 0 {
+			for _, e := range node.In {
+				args := e.Site.Common().Args
+				if !e.Site.Common().IsInvoke() && idx < len(args) {
+					add(dk.kinds(args[idx], depth+1))
+				}
+			}
+		}
+	}
+	return out
+}
+
+func (dk *dictKinds) resultKinds(g *ssa.Function, idx int, depth int) map[string]bool {
+	out := map[string]bool{}
+	if g == nil || g.Blocks == nil || !dk.c.InPkg(g) {
+		return out
+	}
+	for _, b := range g.Blocks {
+		if ret, ok := b.Instrs[len(b.Instrs)-1].(*ssa.Return); ok && idx < len(ret.Results) && !isNilConst(ret.Results[idx]) {
+			for k := range dk.kinds(ret.Results[idx], depth) {
+				out[k] = true
+			}
+		}
+	}
+	return out
+}
+
+// installedAs: the dictionary object d is stored as the payload of a key object whose flags are set to a constant in the
+// same function.
+func (dk *dictKinds) installedAs(d ssa.Value) map[string]bool {
+	out := map[string]bool{}
+	ins, ok := d.(ssa.Instruction)
+	if !ok || ins.Parent() == nil {
+		return out
+	}
+	fn := ins.Parent()
+	for _, in := range instrsOf(fn) {
+		st, ok := isStoreTo(in, dk.fPay)
+		if !ok {
+			continue
+		}
+		v := st.Val
+		if mi, ok := v.(*ssa.MakeInterface); ok {
+			v = mi.X
+		}
+		same := v == d
+		if !same {
+			for _, leaf := range phiLeaves(v, map[ssa.Value]bool{}) {
+				if leaf == d {
+					same = true
+				}
+			}
+		}
+		if !same {
+			continue
+		}
+		base := st.Addr.(*ssa.FieldAddr).X
+		for _, in2 := range instrsOf(fn) {
+			if st2, ok := isStoreTo(in2, dk.fFlag); ok && sameBase(st2.Addr.(*ssa.FieldAddr).X, base) {
+				if n := dk.flagConstName(st2.Val); n != "" {
+					out[n] = true
+				}
+			}
+		}
+	}
+	return out
+}
+
+func ruleDictValueAgree(c *Ctx) {
+	c.S.Rule("R-dict-value-agree", textDictValue, 1)
+	mm := c.M.Muts()
+	dk := &dictKinds{c: c, fFlag: c.Field("storeKey", "flags"), fPay: c.Field("storeKey", "payload"), fData: c.Field("dataStore", "data"), memo: map[ssa.Value]map[string]bool{}}
+	if dk.fFlag == nil || dk.fPay == nil || dk.fData == nil {
+		c.S.Undecided("R-dict-value-agree", "anchors", "-", "storeKey.flags / payload / dataStore.data not found")
+		return
+	}
+	isDictMethod := func(f *ssa.Function) bool {
+		return f != nil && f.Signature.Recv() != nil && c.isPkgType(f.Signature.Recv().Type(), "redisDict")
+	}
+	// producers: the Go types stored as values per kind
+	produced := map[string]map[string]bool{}
+	for _, fn := range c.SrcFuncs() {
+		if isDictMethod(fn) {
+			continue
+		}
+		for _, in := range instrsOf(fn) {
+			call, ok := in.(*ssa.Call)
+			if !ok || !mm.dictStore[call.Call.StaticCallee()] || len(call.Call.Args) < 3 {
+				continue
+			}
+			val := call.Call.Args[2]
+			mi, ok := val.(*ssa.MakeInterface)
+			if !ok {
+				continue // a value passed on from another dictionary (copies): not a producer of a type
+			}
+			for k := range dk.kinds(call.Call.Args[0], 0) {
+				if produced[k] == nil {
+					produced[k] = map[string]bool{}
+				}
+				produced[k][typeString(mi.X.Type())] = true
+			}
+		}
+	}
+	// consumers: functions a command can reach (helpers kept "for reference" and never called are not behaviour)
+	live := map[*ssa.Function]bool{}
+	if hs, err := c.M.Handlers(); err == nil {
+		for _, h := range hs {
+			for f := range c.M.Reach(h) {
+				live[f] = true
+			}
+		}
+	}
+	n := 0
+	for _, fn := range c.SrcFuncs() {
+		if isDictMethod(fn) || (len(live) > 0 && !live[enclosing(fn)]) {
+			continue
+		}
+		k := 0
+		for _, in := range instrsOf(fn) {
+			ta, ok := in.(*ssa.TypeAssert)
+			if !ok {
+				continue
+			}
+			// where does the asserted value come from?
+			var dict ssa.Value
+			switch src := ta.X.(type) {
+			case *ssa.UnOp:
+				// it.value of an iterator made from a dictionary
+				if fa, ok := src.X.(*ssa.FieldAddr); ok && src.Op == token.MUL {
+					if mk, ok := fa.X.(*ssa.Call); ok && isDictMethod(mk.Call.StaticCallee()) && len(mk.Call.Args) > 0 && !c.isPkgType(mk.Type(), "redisDict") {
+						if _, isIface := fieldOf(fa).Type().Underlying().(*types.Interface); isIface {
+							dict = mk.Call.Args[0]
+						}
+					}
+				}
+			case *ssa.Extract:
+				if call, ok := src.Tuple.(*ssa.Call); ok && isDictMethod(call.Call.StaticCallee()) && len(call.Call.Args) > 0 && !mm.dictStore[call.Call.StaticCallee()] && !mm.dictRem[call.Call.StaticCallee()] {
+					dict = call.Call.Args[0]
+				}
+			}
+			if dict == nil {
+				continue
+			}
+			ks := dk.kinds(dict, 0)
+			if len(ks) == 0 {
+				continue
+			}
+			k++
+			n++
+			key := fmt.Sprintf("%s:value.(%s)#%d", fnName(fn), typeString(ta.AssertedType), k)
+			T := typeString(ta.AssertedType)
+			bad := ""
+			for kind := range ks {
+				if len(produced[kind]) > 0 && !produced[kind][T] {
+					var have []string
+					for t := range produced[kind] {
+						have = append(have, t)
+					}
+					bad = fmt.Sprintf("%s (values stored there: %s)", strings.TrimPrefix(kind, "FLAG_KEY_TYPE_"), strings.Join(have, ", "))
+				}
+			}
+			if bad != "" {
+				c.S.Bad("R-dict-value-agree", key, c.Pos(ta.Pos()), fmt.Sprintf("%s asserts .(%s) on a value taken from a dictionary of kind %s: the assertion fails for every entry — a panic in the command goroutine when it is the single-result form", fnName(fn), T, bad))
+			} else {
+				c.S.OK("R-dict-value-agree", key, c.Pos(ta.Pos()), "asserts a type the producers store in dictionaries of this kind")
+			}
+		}
+	}
+	if n == 0 {
+		c.S.Trivial("R-dict-value-agree", "none", "-", "no type assertion on dictionary values whose kind is known")
+	}
+}
